@@ -35,7 +35,8 @@ func minimiseSched(w0 *Workload, class, sig string) *Workload {
 	if !repro(cur) {
 		return nil
 	}
-	for progress := true; progress && budget > 0; {
+	expired := func() bool { return budget <= 0 || time.Now().After(deadline) }
+	for progress := true; progress && !expired(); {
 		progress = false
 		// A. drop clients
 		for ci := 0; ci < len(cur.Clients) && len(cur.Clients) > 1; ci++ {
@@ -52,9 +53,22 @@ func minimiseSched(w0 *Workload, class, sig string) *Workload {
 				cur, progress = c, true
 			}
 		}
-		// B. drop operations
+		// B. drop operations (halves first for long lists)
 		for ci := 0; ci < len(cur.Clients); ci++ {
-			for oi := 0; oi < len(cur.Clients[ci]) && len(cur.Clients[ci]) > 1; oi++ {
+			for chunk := len(cur.Clients[ci]) / 2; chunk >= 2 && !expired(); chunk /= 2 {
+				for i := 0; i+chunk <= len(cur.Clients[ci]) && len(cur.Clients[ci])-chunk >= 1 && !expired(); {
+					c := cloneWorkload(cur)
+					c.Clients[ci] = append(append([]Op{}, cur.Clients[ci][:i]...), cur.Clients[ci][i+chunk:]...)
+					if repro(c) {
+						cur, progress = c, true
+					} else {
+						i += chunk
+					}
+				}
+			}
+		}
+		for ci := 0; ci < len(cur.Clients); ci++ {
+			for oi := 0; oi < len(cur.Clients[ci]) && len(cur.Clients[ci]) > 1 && !expired(); oi++ {
 				c := cloneWorkload(cur)
 				c.Clients[ci] = append(append([]Op{}, c.Clients[ci][:oi]...), c.Clients[ci][oi+1:]...)
 				if repro(c) {
@@ -66,7 +80,7 @@ func minimiseSched(w0 *Workload, class, sig string) *Workload {
 		// C. drop preemptions (chunks first)
 		if cur.UseForced {
 			for chunk := len(cur.Forced) / 2; chunk >= 1; chunk /= 2 {
-				for i := 0; i+chunk <= len(cur.Forced); {
+				for i := 0; i+chunk <= len(cur.Forced) && !expired(); {
 					c := cloneWorkload(cur)
 					c.Forced = append(append([]simrt.Event{}, cur.Forced[:i]...), cur.Forced[i+chunk:]...)
 					if repro(c) {
@@ -83,6 +97,9 @@ func minimiseSched(w0 *Workload, class, sig string) *Workload {
 				continue
 			}
 			for _, t := range shrinkJSON(cur.Docs[di].Text) {
+				if expired() {
+					break
+				}
 				c := cloneWorkload(cur)
 				c.Docs[di].Text = t
 				if repro(c) {
@@ -94,6 +111,9 @@ func minimiseSched(w0 *Workload, class, sig string) *Workload {
 		// E. shrink expressions
 		for ei := range cur.Exprs {
 			for _, t := range shrinkExpr(cur.Exprs[ei]) {
+				if expired() {
+					break
+				}
 				if usedAsSearch(cur, ei) && !compiles(t) {
 					continue
 				}
